@@ -417,7 +417,7 @@ def oracle_sims(obs):
 
 class C04(Prop):
     id = "C04"
-    lean_modules = ["VivModel.Props.C04"]
+    lean_modules = ["VivModel.Props.C04", "VivModel.Props.C04Src"]
     build_targets = ["VivModel.Model.IndexMap", "VivModel.Model.Proto"]
     driver = "C03"
     technique = ("Lean 4 proof (a non-colliding key keeps its first hash for every hash function, map, batch, labelling and order; "
